@@ -23,7 +23,8 @@ RULE = ("cases: generated assemblies of 1..3 modules over BsaI/BbsI/BsmBI and 3 
         "features, reference lists of 0..5 entries (shared through a common pool), features citing 0..3 references inside and outside the "
         "retained fragments, every record independently rotated; per case: clean call x3 on shared objects, every boundary crossing x "
         "{InjectedFault, InvalidSequence}, each followed by a retry, and the natural failure scenarios. Non-trivial = a faulted or "
-        "failing call on inputs at least one of which carries a citation qualifier or a feature; distinct = distinct (case, crash point, exception kind).")
+        "failing call on inputs at least one of which carries a citation qualifier or a feature; distinct = distinct (case, crash point, exception kind)."
+        " Second session: the leftover module of the warning path carries a reference list and citations; one paper listed twice with two spans in an input, a feature citing the second entry.")
 ASSUMPTIONS = [
     "references inside one record are pairwise distinct; citation qualifiers are well-formed [n] with n in range, except in the 'bad-citation' scenarios where one malformed / dangling qualifier serves as the failure trigger",
     "an absent reference list is equivalent to an empty one (as the statement says)",
